@@ -6,7 +6,7 @@ package rules
 // neighbour scans, decided on the CFG), c19_order.go, c19_order2.go, c19_roles.go (M6: classification of states by time in the binary search, its
 // caller and the lower-bound finder), c19_complete.go (M7: completeness of the lower-bound finder), c19_exits.go (one-line predicates looked through,
 // loops described by their exits), c19_probe.go (how the binary-search loop obtains its probed state: own fetch or probe helper), c19_fields.go (bounds held in struct
-// fields), c19_order3.go (M6 walk following the classification into callees), c19_flow.go (M7: narrowing through a carrier variable), c19_interp.go (abstract evaluator), c19_eval.go (M3–M5: decision and
+// fields), c19_order3.go (M6 walk following the classification into callees), c19_flow.go (M7: narrowing through a carrier variable), c19_interp_map.go (lookup tables in the evaluator), c19_interp.go (abstract evaluator), c19_eval.go (M3–M5: decision and
 // formatting functions evaluated over their finite abstract domain), c19_variants.go (behaviour-preserving variants).
 //
 // Anchors. Everything is resolved from exported API and roles, never from the name or the place of an
@@ -56,11 +56,11 @@ func init() {
 			"(M2) for the binary-search loop (kept running by lo.SeqNum… < hi.SeqNum, obtaining one probed state per iteration by a fetch of the middle in its body or through a probe helper, a function that makes that fetch outside any loop and may hold the scans) and each neighbour scan over missing state files (a `for` with one state fetch, nested in the loop or in a function it calls; the fetch is recognised through wrapper functions): when the middle is found no scan runs; the scanned variable starts one step from the probed middle, is the variable probed, is stepped once, after the probe, in the direction of its start on every way round the loop that found nothing; the probe is controlled inside the loop by a comparison that is `lo.SeqNum < v` (down) / `v < hi.SeqNum` (up) in integer normal form (an off-by-one in either direction is reported); once a state is found neither the same probe nor another scan is reachable (CFG walk with the nil tests decided); both directions exist; and when every probe of one iteration finds nothing the only way on is `return hi`, like every other success return reachable from the loop. So every probe lies strictly between the bounds, the neighbours next to both bounds are probed, and a scan costs at most one request per missing file. " +
 			"(M3) evaluated over kind × sequence number × HTTP status × error: every exported state/data/current-state fetcher requests, as its first request, exactly the URL tables/replication.json gives (path format, three zero-padded decimal digit groups, suffix per file kind, current-state file for sequence number 0, base URL of its own datasource); Dir() values; the function the state decoders parse timestamps with returns the right instant for the planet's timestamp forms (escaped colons); NotFound is true exactly for a status error with code 404; with a 404 response every state/data fetcher returns an error satisfying NotFound, with 500/403 an error that does not, with 200 no status error. " +
 			"(M4) changeset state off-by-one, evaluated: the current state reports the parsed `sequence:` value +1 (and returns that number), a numbered state reports the number requested. " +
-			"(M5) evaluated: each lookup and its package-level delegate calls the search exactly once with the caller's ctx and timestamp, returns the state found together with K(state.SeqNum) of its own kind, propagates the error; the descriptor's functions request the current/numbered state files of the lookup's own kind on the lookup's own datasource (the default datasource for the delegates); the minimum sequence number is a constant >= 1. " +
+			"(M5) evaluated: each lookup and its package-level delegate calls the search exactly once with the caller's ctx and timestamp, returns the state found together with K(state.SeqNum) of its own kind, propagates the error; the descriptor's functions request the current/numbered state files of the lookup's own kind on the lookup's own datasource (the default datasource for the delegates); the minimum sequence number is a constant equal to the least sequence number a replication directory can hold (tables/replication.json first_sequence, 1 when absent): the search takes State(Min) for the lowest state of the directory (it returns it when it is at or after t and never probes below it), which holds for every directory only then. " +
 			"(M6) in the binary-search loop the probed state is classified by time as the result demands. Read off the code: every success return reachable from the loop gives the upper bound, the lower bound is never returned, so the upper bound is the candidate answer (must be at or after t) and the lower bound is exclusive (must be strictly before t). For each of the three orderings of the probed state's timestamp and the query time (<, ==, >) the CFG is walked from the probe with every comparison of the two instants decided (After/Before/Equal/Compare of time.Time in any spelling, negations, inverted or swapped branches, switch forms, one-line predicates): a state before t becomes the lower and never the upper bound, a state exactly at t or after t becomes the upper and never the lower bound (a state written exactly at t that becomes the lower bound is lost: the lookup answers with the next one). " +
 			"M6 also covers the code around the loop, with roles taken from dataflow (caller = the function handing the two bounds to the binary search, finder = the function whose results the caller assigns to both bounds at once): in the caller, for every value the lower-bound variable is given (the minimum state, the finder's result), `return lower` is unreachable when lower is before t and the binary search is unreachable when lower is at or after t; in the finder a probed state before t never becomes or is handed back as the upper bound, a probed state at or after t becomes the upper bound (or leaves through an answer exit), and a state exactly at t reaches the same updates and returns as a state after t. " +
 			"(M7) the finder, which runs when the minimum state file is missing, is complete: after a probe that found no file the cursor moves by single steps only (narrow-on-missing); the same holds through a carrier: a cursor write anywhere in the loop that reads a variable or struct field given, under a 404, a value derived from the cursor, and not recomputed between the probe and the write, is a narrowing on missing under its own construct (`… via <carrier>`), and an exit that concludes that nothing lower qualifies (a success return after a probe that found no file, returns-upper; a probed state at or after t handed back as first result, returns-probed) is accepted only for an exhaustive ascending scan (every cursor write in the loop a +1 step; for returns-upper the cursor has reached the upper bound). The pinned tree bisects on missing files and violates all three constructs: that is a known finding (known_findings.jsonl), correct only when the missing files form a prefix of the directory; any further site is reported under another construct and fails. " +
-			"The two bounds may be state variables or fields of a struct that methods read and update (the loop condition, the middle, the classification and the probe may be methods of it; one range value per search is assumed); the classification is followed into the function that updates the bounds. " +
+			"The two bounds may be state variables or fields of a struct that methods read and update, in the binary search (which may itself be a method of that struct) as well as in its caller (the finder's results may be assigned into the fields) (the loop condition, the middle, the classification and the probe may be methods of it; one range value per search is assumed); the classification is followed into the function that updates the bounds. " +
 			"The verdicts do not depend on how the code is cut into helpers, on if/switch/early-return form, on local names, named constants or statement order. " +
 			"NOT decided: the logarithmic request bound, which state is returned for which timestamp beyond M6/M7 (states with equal timestamps, non-monotone server timestamps), termination of the finder beyond M1, monotonicity of server timestamps, HTTP transport behaviour, parsing of malformed state files, the decoding of interval state files (evaluation stops at their line loop), sequence numbers of 10^9 and more.",
 		Assumptions: []string{"go/types, go/cfg (x/tools v0.29.0)", "tables/replication.json is the planet server's layout", "the abstract evaluator of rules/c19_interp.go implements the semantics of the Go subset it accepts (anything outside it is reported as undecided); fmt.Sprintf, strconv formatting and time.Parse of the checker's Go toolchain are the ones the library is built with (they are applied to the library's constants and the table's samples; the library itself is neither compiled nor run)", "a function of the package that makes exactly one state fetch outside any loop with an unmodified parameter as sequence number is a fetch of that argument (its error handling is not part of M2)"},
@@ -73,7 +73,7 @@ func init() {
 			{ID: "M2", Floor: 12, Doc: "neighbour scans over missing state files: start next to the middle, probe the stepped variable, one step after the probe, strict bound in normal form, stop at the first state, both directions, nothing found = upper bound", Run: c19M2},
 			{ID: "M3", Floor: 28, Doc: "planet replication layout, by evaluation: URL requested per exported fetcher (12), Dir() values (4), timestamp forms (3), NotFound decision (1), status propagation per state/data fetcher (8)", Run: c19M3},
 			{ID: "M4", Floor: 2, Doc: "changeset state off-by-one, by evaluation: current state reports the parsed sequence +1, numbered state reports the requested number", Run: c19M4},
-			{ID: "M5", Floor: 16, Doc: "the four …StateAt lookups and their package-level delegates, by evaluation: one search with the caller's arguments, own kind and own datasource, minimum >= 1, result returned with its own number", Run: c19M5},
+			{ID: "M5", Floor: 16, Doc: "the four …StateAt lookups and their package-level delegates, by evaluation: one search with the caller's arguments, own kind and own datasource, minimum = the least sequence number a directory can hold, result returned with its own number", Run: c19M5},
 			{ID: "M6", Floor: 2, Doc: "the binary search classifies a probed state by time as its result demands: only a state strictly before t becomes the exclusive lower bound, a state at or after t becomes the upper bound (the value returned), decided for the three orderings of the two instants", Run: c19M6},
 			{ID: "M7", Floor: 3, Doc: "the lower-bound search run when the minimum state file is missing is complete: after a probe that found no file the cursor moves by single steps only, and an exit that concludes nothing lower qualifies is reached only by an exhaustive ascending scan (violated on the pinned tree: known finding)", Run: c19M7},
 		},
@@ -152,6 +152,14 @@ var c19Mutants = []core.Mutant{
 	{Name: "m2-method-exhausted-returns-lower", File: "replication/search.go", Find: "func findInRange(ctx context.Context, s *stater, lower, upper *State, timestamp time.Time) (*State, error) {\n\t// we do a binary search through the range to find the sequence number\n\tfor lower.SeqNum+1 < upper.SeqNum {\n\t\t// could do better here\n\t\tsplitID := (lower.SeqNum + upper.SeqNum) / 2\n\n\t\tsplit, err := s.State(ctx, splitID)\n\t\tif err != nil && !NotFound(err) {\n\t\t\treturn nil, err\n\t\t}\n\n\t\tif split == nil {\n\t\t\t// file missing, search the next towards lower\n\t\t\tsID := splitID - 1\n\n\t\t\tfor split == nil && lower.SeqNum < sID {\n\t\t\t\tsplit, err = s.State(ctx, sID)\n\t\t\t\tif err != nil && !NotFound(err) {\n\t\t\t\t\treturn nil, err\n\t\t\t\t}\n\n\t\t\t\tsID--\n\t\t\t}\n\t\t}\n\n\t\tif split == nil {\n\t\t\t// still missing? search the next towards upper\n\t\t\tsID := splitID + 1\n\n\t\t\tfor split == nil && sID < upper.SeqNum {\n\t\t\t\tsplit, err = s.State(ctx, sID)\n\t\t\t\tif err != nil && !NotFound(err) {\n\t\t\t\t\treturn nil, err\n\t\t\t\t}\n\n\t\t\t\tsID++\n\t\t\t}\n\t\t}\n\n\t\tif split == nil {\n\t\t\t// nothing between lower and upper, so upper is\n\t\t\t// the first state at or after the timestamp.\n\t\t\treturn upper, nil\n\t\t}\n\n\t\t// set the new boundary\n\t\tif timestamp.After(split.Timestamp) {\n\t\t\tlower = split\n\t\t} else {\n\t\t\tupper = split\n\t\t}\n\t}\n\n\t// timestamp is now between lower and upper, we want to return the upper.\n\treturn upper, nil\n}\n", Replace: "// stateRange is the pair of states the binary search narrows down: the timestamp\n// looked for is after lower and at or before upper.\ntype stateRange struct {\n\tlower, upper *State\n}\n\n// adjacent is true if there is no sequence number left between the bounds.\nfunc (r *stateRange) adjacent() bool {\n\treturn r.lower.SeqNum+1 >= r.upper.SeqNum\n}\n\n// middle is the sequence number to look at next.\nfunc (r *stateRange) middle() uint64 {\n\treturn (r.lower.SeqNum + r.upper.SeqNum) / 2\n}\n\n// narrow replaces one of the bounds by a state found between them.\nfunc (r *stateRange) narrow(split *State, timestamp time.Time) {\n\tif timestamp.After(split.Timestamp) {\n\t\tr.lower = split\n\t} else {\n\t\tr.upper = split\n\t}\n}\n\nfunc findInRange(ctx context.Context, s *stater, lower, upper *State, timestamp time.Time) (*State, error) {\n\twindow := stateRange{lower: lower, upper: upper}\n\n\t// we do a binary search through the range to find the sequence number\n\tfor !window.adjacent() {\n\t\t// could do better here\n\t\tsplitID := window.middle()\n\n\t\tsplit, err := s.State(ctx, splitID)\n\t\tif err != nil && !NotFound(err) {\n\t\t\treturn nil, err\n\t\t}\n\n\t\tif split == nil {\n\t\t\t// file missing, search the next towards lower\n\t\t\tsID := splitID - 1\n\n\t\t\tfor split == nil && window.lower.SeqNum < sID {\n\t\t\t\tsplit, err = s.State(ctx, sID)\n\t\t\t\tif err != nil && !NotFound(err) {\n\t\t\t\t\treturn nil, err\n\t\t\t\t}\n\n\t\t\t\tsID--\n\t\t\t}\n\t\t}\n\n\t\tif split == nil {\n\t\t\t// still missing? search the next towards upper\n\t\t\tsID := splitID + 1\n\n\t\t\tfor split == nil && sID < window.upper.SeqNum {\n\t\t\t\tsplit, err = s.State(ctx, sID)\n\t\t\t\tif err != nil && !NotFound(err) {\n\t\t\t\t\treturn nil, err\n\t\t\t\t}\n\n\t\t\t\tsID++\n\t\t\t}\n\t\t}\n\n\t\tif split == nil {\n\t\t\t// nothing between lower and upper, so upper is\n\t\t\t// the first state at or after the timestamp.\n\t\t\treturn window.lower, nil\n\t\t}\n\n\t\t// set the new boundary\n\t\twindow.narrow(split, timestamp)\n\t}\n\n\t// timestamp is now between lower and upper, we want to return the upper.\n\treturn window.upper, nil\n}\n", ExpectRule: "M2", ExpectConstruct: "scans@findInRange exhausted"},
 	{Name: "m1-method-condition-on-frozen-copy", File: "replication/search.go", Find: "func findInRange(ctx context.Context, s *stater, lower, upper *State, timestamp time.Time) (*State, error) {\n\t// we do a binary search through the range to find the sequence number\n\tfor lower.SeqNum+1 < upper.SeqNum {\n\t\t// could do better here\n\t\tsplitID := (lower.SeqNum + upper.SeqNum) / 2\n\n\t\tsplit, err := s.State(ctx, splitID)\n\t\tif err != nil && !NotFound(err) {\n\t\t\treturn nil, err\n\t\t}\n\n\t\tif split == nil {\n\t\t\t// file missing, search the next towards lower\n\t\t\tsID := splitID - 1\n\n\t\t\tfor split == nil && lower.SeqNum < sID {\n\t\t\t\tsplit, err = s.State(ctx, sID)\n\t\t\t\tif err != nil && !NotFound(err) {\n\t\t\t\t\treturn nil, err\n\t\t\t\t}\n\n\t\t\t\tsID--\n\t\t\t}\n\t\t}\n\n\t\tif split == nil {\n\t\t\t// still missing? search the next towards upper\n\t\t\tsID := splitID + 1\n\n\t\t\tfor split == nil && sID < upper.SeqNum {\n\t\t\t\tsplit, err = s.State(ctx, sID)\n\t\t\t\tif err != nil && !NotFound(err) {\n\t\t\t\t\treturn nil, err\n\t\t\t\t}\n\n\t\t\t\tsID++\n\t\t\t}\n\t\t}\n\n\t\tif split == nil {\n\t\t\t// nothing between lower and upper, so upper is\n\t\t\t// the first state at or after the timestamp.\n\t\t\treturn upper, nil\n\t\t}\n\n\t\t// set the new boundary\n\t\tif timestamp.After(split.Timestamp) {\n\t\t\tlower = split\n\t\t} else {\n\t\t\tupper = split\n\t\t}\n\t}\n\n\t// timestamp is now between lower and upper, we want to return the upper.\n\treturn upper, nil\n}\n", Replace: "// stateRange is the pair of states the binary search narrows down: the timestamp\n// looked for is after lower and at or before upper.\ntype stateRange struct {\n\tlower, upper *State\n}\n\n// adjacent is true if there is no sequence number left between the bounds.\nfunc (r *stateRange) adjacent() bool {\n\treturn r.lower.SeqNum+1 >= r.upper.SeqNum\n}\n\n// middle is the sequence number to look at next.\nfunc (r *stateRange) middle() uint64 {\n\treturn (r.lower.SeqNum + r.upper.SeqNum) / 2\n}\n\n// narrow replaces one of the bounds by a state found between them.\nfunc (r *stateRange) narrow(split *State, timestamp time.Time) {\n\tif timestamp.After(split.Timestamp) {\n\t\tr.lower = split\n\t} else {\n\t\tr.upper = split\n\t}\n}\n\nfunc findInRange(ctx context.Context, s *stater, lower, upper *State, timestamp time.Time) (*State, error) {\n\twindow := stateRange{lower: lower, upper: upper}\n\n\t// we do a binary search through the range to find the sequence number\n\tfrozen := window\n\tfor !frozen.adjacent() {\n\t\t// could do better here\n\t\tsplitID := window.middle()\n\n\t\tsplit, err := s.State(ctx, splitID)\n\t\tif err != nil && !NotFound(err) {\n\t\t\treturn nil, err\n\t\t}\n\n\t\tif split == nil {\n\t\t\t// file missing, search the next towards lower\n\t\t\tsID := splitID - 1\n\n\t\t\tfor split == nil && window.lower.SeqNum < sID {\n\t\t\t\tsplit, err = s.State(ctx, sID)\n\t\t\t\tif err != nil && !NotFound(err) {\n\t\t\t\t\treturn nil, err\n\t\t\t\t}\n\n\t\t\t\tsID--\n\t\t\t}\n\t\t}\n\n\t\tif split == nil {\n\t\t\t// still missing? search the next towards upper\n\t\t\tsID := splitID + 1\n\n\t\t\tfor split == nil && sID < window.upper.SeqNum {\n\t\t\t\tsplit, err = s.State(ctx, sID)\n\t\t\t\tif err != nil && !NotFound(err) {\n\t\t\t\t\treturn nil, err\n\t\t\t\t}\n\n\t\t\t\tsID++\n\t\t\t}\n\t\t}\n\n\t\tif split == nil {\n\t\t\t// nothing between lower and upper, so upper is\n\t\t\t// the first state at or after the timestamp.\n\t\t\treturn window.upper, nil\n\t\t}\n\n\t\t// set the new boundary\n\t\twindow.narrow(split, timestamp)\n\t}\n\n\t// timestamp is now between lower and upper, we want to return the upper.\n\treturn window.upper, nil\n}\n", ExpectRule: "M1", ExpectConstruct: "loop@findInRange[1] conjunct 1"},
 	{Name: "m6-method-narrow-ignores-time", File: "replication/search.go", Find: "func findInRange(ctx context.Context, s *stater, lower, upper *State, timestamp time.Time) (*State, error) {\n\t// we do a binary search through the range to find the sequence number\n\tfor lower.SeqNum+1 < upper.SeqNum {\n\t\t// could do better here\n\t\tsplitID := (lower.SeqNum + upper.SeqNum) / 2\n\n\t\tsplit, err := s.State(ctx, splitID)\n\t\tif err != nil && !NotFound(err) {\n\t\t\treturn nil, err\n\t\t}\n\n\t\tif split == nil {\n\t\t\t// file missing, search the next towards lower\n\t\t\tsID := splitID - 1\n\n\t\t\tfor split == nil && lower.SeqNum < sID {\n\t\t\t\tsplit, err = s.State(ctx, sID)\n\t\t\t\tif err != nil && !NotFound(err) {\n\t\t\t\t\treturn nil, err\n\t\t\t\t}\n\n\t\t\t\tsID--\n\t\t\t}\n\t\t}\n\n\t\tif split == nil {\n\t\t\t// still missing? search the next towards upper\n\t\t\tsID := splitID + 1\n\n\t\t\tfor split == nil && sID < upper.SeqNum {\n\t\t\t\tsplit, err = s.State(ctx, sID)\n\t\t\t\tif err != nil && !NotFound(err) {\n\t\t\t\t\treturn nil, err\n\t\t\t\t}\n\n\t\t\t\tsID++\n\t\t\t}\n\t\t}\n\n\t\tif split == nil {\n\t\t\t// nothing between lower and upper, so upper is\n\t\t\t// the first state at or after the timestamp.\n\t\t\treturn upper, nil\n\t\t}\n\n\t\t// set the new boundary\n\t\tif timestamp.After(split.Timestamp) {\n\t\t\tlower = split\n\t\t} else {\n\t\t\tupper = split\n\t\t}\n\t}\n\n\t// timestamp is now between lower and upper, we want to return the upper.\n\treturn upper, nil\n}\n", Replace: "// stateRange is the pair of states the binary search narrows down: the timestamp\n// looked for is after lower and at or before upper.\ntype stateRange struct {\n\tlower, upper *State\n}\n\n// adjacent is true if there is no sequence number left between the bounds.\nfunc (r *stateRange) adjacent() bool {\n\treturn r.lower.SeqNum+1 >= r.upper.SeqNum\n}\n\n// middle is the sequence number to look at next.\nfunc (r *stateRange) middle() uint64 {\n\treturn (r.lower.SeqNum + r.upper.SeqNum) / 2\n}\n\n// narrow replaces one of the bounds by a state found between them.\nfunc (r *stateRange) narrow(split *State, timestamp time.Time) {\n\tif split.SeqNum%2 == 0 {\n\t\tr.lower = split\n\t} else {\n\t\tr.upper = split\n\t}\n}\n\nfunc findInRange(ctx context.Context, s *stater, lower, upper *State, timestamp time.Time) (*State, error) {\n\twindow := stateRange{lower: lower, upper: upper}\n\n\t// we do a binary search through the range to find the sequence number\n\tfor !window.adjacent() {\n\t\t// could do better here\n\t\tsplitID := window.middle()\n\n\t\tsplit, err := s.State(ctx, splitID)\n\t\tif err != nil && !NotFound(err) {\n\t\t\treturn nil, err\n\t\t}\n\n\t\tif split == nil {\n\t\t\t// file missing, search the next towards lower\n\t\t\tsID := splitID - 1\n\n\t\t\tfor split == nil && window.lower.SeqNum < sID {\n\t\t\t\tsplit, err = s.State(ctx, sID)\n\t\t\t\tif err != nil && !NotFound(err) {\n\t\t\t\t\treturn nil, err\n\t\t\t\t}\n\n\t\t\t\tsID--\n\t\t\t}\n\t\t}\n\n\t\tif split == nil {\n\t\t\t// still missing? search the next towards upper\n\t\t\tsID := splitID + 1\n\n\t\t\tfor split == nil && sID < window.upper.SeqNum {\n\t\t\t\tsplit, err = s.State(ctx, sID)\n\t\t\t\tif err != nil && !NotFound(err) {\n\t\t\t\t\treturn nil, err\n\t\t\t\t}\n\n\t\t\t\tsID++\n\t\t\t}\n\t\t}\n\n\t\tif split == nil {\n\t\t\t// nothing between lower and upper, so upper is\n\t\t\t// the first state at or after the timestamp.\n\t\t\treturn window.upper, nil\n\t\t}\n\n\t\t// set the new boundary\n\t\twindow.narrow(split, timestamp)\n\t}\n\n\t// timestamp is now between lower and upper, we want to return the upper.\n\treturn window.upper, nil\n}\n", ExpectRule: "M6", ExpectConstruct: "order@findInRange"},
+	// M5: the minimum is the least sequence number a directory can hold (the first is the seeded defect C19-f)
+	{Name: "m5-min-first-planet-changeset-state", File: "replication/search.go", Find: "\t\tMin: minDay,\n", Nth: 2, Replace: "\t\tMin: minChangeset,\n", ExpectRule: "M5", ExpectConstruct: "min@(*Datasource).ChangesetStateAt"},
+	{Name: "m5-min-second-state", File: "replication/search.go", Find: "\t\tMin: minMinute,\n", Replace: "\t\tMin: minMinute + 1,\n", ExpectRule: "M5", ExpectConstruct: "min@(*Datasource).MinuteStateAt"},
+	{Name: "m5-min-not-constant", File: "replication/search.go", Find: "\t\tMin: minHour,\n", Replace: "\t\tMin: uint64(len(ds.BaseURL)),\n", ExpectRule: "M5", ExpectConstruct: "min@(*Datasource).HourStateAt"},
+	// defects seeded into the window form (bounds in the fields of one struct in the caller, the binary search a method of it)
+	{Name: "m6-window-answer-guard-on-adjacency", File: "replication/search.go", Find: "\tlower, err := s.State(ctx, s.Min)\n\tif err != nil && !NotFound(err) {\n\t\treturn nil, err\n\t}\n\n\tif lower == nil {\n\t\t// now we need to find a lower bound state manually.\n\t\t// This can have edge cases if there are missing sequence numbers.\n\t\tvar err error\n\t\tlower, upper, err = findBound(ctx, s, upper, timestamp)\n\t\tif err != nil {\n\t\t\treturn nil, err\n\t\t}\n\t}\n\n\tif !timestamp.After(lower.Timestamp) {\n\t\t// the lowest state is already at or after the timestamp.\n\t\treturn lower, nil\n\t}\n\n\treturn findInRange(ctx, s, lower, upper, timestamp)\n}\n\nfunc findBound(ctx context.Context, s *stater, upper *State, timestamp time.Time) (*State, *State, error) {\n\tvar (\n\t\tlowerID uint64 = 1\n\t\tlower   *State\n\t\terr     error\n\t)\n\n\t// we need to find the lower bound\n\tfor lower == nil {\n\t\tlower, err = s.State(ctx, lowerID)\n\n\t\tif err != nil && !NotFound(err) {\n\t\t\treturn nil, nil, err\n\t\t}\n\n\t\tif lower != nil && !timestamp.After(lower.Timestamp) {\n\t\t\tif lower.SeqNum+1 >= upper.SeqNum {\n\t\t\t\treturn lower, upper, nil // edge case if there are only two sequence numbers\n\t\t\t}\n\n\t\t\t// in our search for lower we found a new upper bound\n\t\t\tupper = lower\n\t\t\tlower = nil\n\t\t\tlowerID = 1\n\t\t}\n\n\t\tif lower != nil {\n\t\t\tbreak\n\t\t}\n\n\t\t// no lower yet, so try a higher id (binary search wise)\n\t\tnewID := (lowerID + upper.SeqNum) / 2\n\t\tif newID <= lowerID {\n\t\t\t// nothing suitable found, so upper is probably the best we can do\n\t\t\treturn upper, upper, nil\n\t\t}\n\t\tlowerID = newID\n\t}\n\n\treturn lower, upper, nil\n}\n\nfunc findInRange(ctx context.Context, s *stater, lower, upper *State, timestamp time.Time) (*State, error) {\n\t// we do a binary search through the range to find the sequence number\n\tfor lower.SeqNum+1 < upper.SeqNum {\n\t\t// could do better here\n\t\tsplitID := (lower.SeqNum + upper.SeqNum) / 2\n\n\t\tsplit, err := s.State(ctx, splitID)\n\t\tif err != nil && !NotFound(err) {\n\t\t\treturn nil, err\n\t\t}\n\n\t\tif split == nil {\n\t\t\t// file missing, search the next towards lower\n\t\t\tsID := splitID - 1\n\n\t\t\tfor split == nil && lower.SeqNum < sID {\n\t\t\t\tsplit, err = s.State(ctx, sID)\n\t\t\t\tif err != nil && !NotFound(err) {\n\t\t\t\t\treturn nil, err\n\t\t\t\t}\n\n\t\t\t\tsID--\n\t\t\t}\n\t\t}\n\n\t\tif split == nil {\n\t\t\t// still missing? search the next towards upper\n\t\t\tsID := splitID + 1\n\n\t\t\tfor split == nil && sID < upper.SeqNum {\n\t\t\t\tsplit, err = s.State(ctx, sID)\n\t\t\t\tif err != nil && !NotFound(err) {\n\t\t\t\t\treturn nil, err\n\t\t\t\t}\n\n\t\t\t\tsID++\n\t\t\t}\n\t\t}\n\n\t\tif split == nil {\n\t\t\t// nothing between lower and upper, so upper is\n\t\t\t// the first state at or after the timestamp.\n\t\t\treturn upper, nil\n\t\t}\n\n\t\t// set the new boundary\n\t\tif timestamp.After(split.Timestamp) {\n\t\t\tlower = split\n\t\t} else {\n\t\t\tupper = split\n\t\t}\n\t}\n\n\t// timestamp is now between lower and upper, we want to return the upper.\n\treturn upper, nil\n}\n", Replace: "\tw := window{upper: upper}\n\tif w.lower, err = s.State(ctx, s.Min); err != nil && !NotFound(err) {\n\t\treturn nil, err\n\t}\n\n\tif w.lower == nil {\n\t\t// now we need to find a lower bound state manually.\n\t\t// This can have edge cases if there are missing sequence numbers.\n\t\tw.lower, w.upper, err = findBound(ctx, s, upper, timestamp)\n\t\tif err != nil {\n\t\t\treturn nil, err\n\t\t}\n\t}\n\n\tif w.lower.SeqNum+1 >= w.upper.SeqNum {\n\t\treturn w.lower, nil // edge case if there are only one or two sequence numbers\n\t}\n\n\treturn w.search(ctx, s, timestamp)\n}\n\nfunc findBound(ctx context.Context, s *stater, upper *State, timestamp time.Time) (*State, *State, error) {\n\tvar (\n\t\tlowerID uint64 = 1\n\t\tlower   *State\n\t\terr     error\n\t)\n\n\t// we need to find the lower bound\n\tfor lower == nil {\n\t\tlower, err = s.State(ctx, lowerID)\n\n\t\tif err != nil && !NotFound(err) {\n\t\t\treturn nil, nil, err\n\t\t}\n\n\t\tif lower != nil && !timestamp.After(lower.Timestamp) {\n\t\t\tif lower.SeqNum+1 >= upper.SeqNum {\n\t\t\t\treturn lower, upper, nil // edge case if there are only two sequence numbers\n\t\t\t}\n\n\t\t\t// in our search for lower we found a new upper bound\n\t\t\tupper = lower\n\t\t\tlower = nil\n\t\t\tlowerID = 1\n\t\t}\n\n\t\tif lower != nil {\n\t\t\tbreak\n\t\t}\n\n\t\t// no lower yet, so try a higher id (binary search wise)\n\t\tnewID := (lowerID + upper.SeqNum) / 2\n\t\tif newID <= lowerID {\n\t\t\t// nothing suitable found, so upper is probably the best we can do\n\t\t\treturn upper, upper, nil\n\t\t}\n\t\tlowerID = newID\n\t}\n\n\treturn lower, upper, nil\n}\n\n// window is the part of the sequence that is still searched: the state looked for\n// is written after lower and is upper at the latest.\ntype window struct {\n\tlower, upper *State\n}\n\n// search does the binary search through the window.\nfunc (w *window) search(ctx context.Context, s *stater, timestamp time.Time) (*State, error) {\n\t// we do a binary search through the range to find the sequence number\n\tfor w.lower.SeqNum+1 < w.upper.SeqNum {\n\t\t// could do better here\n\t\tsplitID := (w.lower.SeqNum + w.upper.SeqNum) / 2\n\n\t\tsplit, err := s.State(ctx, splitID)\n\t\tif err != nil && !NotFound(err) {\n\t\t\treturn nil, err\n\t\t}\n\n\t\tif split == nil {\n\t\t\t// file missing, search the next towards w.lower\n\t\t\tsID := splitID - 1\n\n\t\t\tfor split == nil && w.lower.SeqNum < sID {\n\t\t\t\tsplit, err = s.State(ctx, sID)\n\t\t\t\tif err != nil && !NotFound(err) {\n\t\t\t\t\treturn nil, err\n\t\t\t\t}\n\n\t\t\t\tsID--\n\t\t\t}\n\t\t}\n\n\t\tif split == nil {\n\t\t\t// still missing? search the next towards w.upper\n\t\t\tsID := splitID + 1\n\n\t\t\tfor split == nil && sID < w.upper.SeqNum {\n\t\t\t\tsplit, err = s.State(ctx, sID)\n\t\t\t\tif err != nil && !NotFound(err) {\n\t\t\t\t\treturn nil, err\n\t\t\t\t}\n\n\t\t\t\tsID++\n\t\t\t}\n\t\t}\n\n\t\tif split == nil {\n\t\t\t// nothing between w.lower and w.upper, so w.upper is\n\t\t\t// the first state at or after the timestamp.\n\t\t\treturn w.upper, nil\n\t\t}\n\n\t\t// set the new boundary\n\t\tif timestamp.After(split.Timestamp) {\n\t\t\tw.lower = split\n\t\t} else {\n\t\t\tw.upper = split\n\t\t}\n\t}\n\n\t// timestamp is now between w.lower and w.upper, we want to return the w.upper.\n\treturn w.upper, nil\n}\n", ExpectRule: "M6", ExpectConstruct: "order@searchTimestamp answer"},
+	{Name: "m6-window-finder-results-swapped", File: "replication/search.go", Find: "\tlower, err := s.State(ctx, s.Min)\n\tif err != nil && !NotFound(err) {\n\t\treturn nil, err\n\t}\n\n\tif lower == nil {\n\t\t// now we need to find a lower bound state manually.\n\t\t// This can have edge cases if there are missing sequence numbers.\n\t\tvar err error\n\t\tlower, upper, err = findBound(ctx, s, upper, timestamp)\n\t\tif err != nil {\n\t\t\treturn nil, err\n\t\t}\n\t}\n\n\tif !timestamp.After(lower.Timestamp) {\n\t\t// the lowest state is already at or after the timestamp.\n\t\treturn lower, nil\n\t}\n\n\treturn findInRange(ctx, s, lower, upper, timestamp)\n}\n\nfunc findBound(ctx context.Context, s *stater, upper *State, timestamp time.Time) (*State, *State, error) {\n\tvar (\n\t\tlowerID uint64 = 1\n\t\tlower   *State\n\t\terr     error\n\t)\n\n\t// we need to find the lower bound\n\tfor lower == nil {\n\t\tlower, err = s.State(ctx, lowerID)\n\n\t\tif err != nil && !NotFound(err) {\n\t\t\treturn nil, nil, err\n\t\t}\n\n\t\tif lower != nil && !timestamp.After(lower.Timestamp) {\n\t\t\tif lower.SeqNum+1 >= upper.SeqNum {\n\t\t\t\treturn lower, upper, nil // edge case if there are only two sequence numbers\n\t\t\t}\n\n\t\t\t// in our search for lower we found a new upper bound\n\t\t\tupper = lower\n\t\t\tlower = nil\n\t\t\tlowerID = 1\n\t\t}\n\n\t\tif lower != nil {\n\t\t\tbreak\n\t\t}\n\n\t\t// no lower yet, so try a higher id (binary search wise)\n\t\tnewID := (lowerID + upper.SeqNum) / 2\n\t\tif newID <= lowerID {\n\t\t\t// nothing suitable found, so upper is probably the best we can do\n\t\t\treturn upper, upper, nil\n\t\t}\n\t\tlowerID = newID\n\t}\n\n\treturn lower, upper, nil\n}\n\nfunc findInRange(ctx context.Context, s *stater, lower, upper *State, timestamp time.Time) (*State, error) {\n\t// we do a binary search through the range to find the sequence number\n\tfor lower.SeqNum+1 < upper.SeqNum {\n\t\t// could do better here\n\t\tsplitID := (lower.SeqNum + upper.SeqNum) / 2\n\n\t\tsplit, err := s.State(ctx, splitID)\n\t\tif err != nil && !NotFound(err) {\n\t\t\treturn nil, err\n\t\t}\n\n\t\tif split == nil {\n\t\t\t// file missing, search the next towards lower\n\t\t\tsID := splitID - 1\n\n\t\t\tfor split == nil && lower.SeqNum < sID {\n\t\t\t\tsplit, err = s.State(ctx, sID)\n\t\t\t\tif err != nil && !NotFound(err) {\n\t\t\t\t\treturn nil, err\n\t\t\t\t}\n\n\t\t\t\tsID--\n\t\t\t}\n\t\t}\n\n\t\tif split == nil {\n\t\t\t// still missing? search the next towards upper\n\t\t\tsID := splitID + 1\n\n\t\t\tfor split == nil && sID < upper.SeqNum {\n\t\t\t\tsplit, err = s.State(ctx, sID)\n\t\t\t\tif err != nil && !NotFound(err) {\n\t\t\t\t\treturn nil, err\n\t\t\t\t}\n\n\t\t\t\tsID++\n\t\t\t}\n\t\t}\n\n\t\tif split == nil {\n\t\t\t// nothing between lower and upper, so upper is\n\t\t\t// the first state at or after the timestamp.\n\t\t\treturn upper, nil\n\t\t}\n\n\t\t// set the new boundary\n\t\tif timestamp.After(split.Timestamp) {\n\t\t\tlower = split\n\t\t} else {\n\t\t\tupper = split\n\t\t}\n\t}\n\n\t// timestamp is now between lower and upper, we want to return the upper.\n\treturn upper, nil\n}\n", Replace: "\tw := window{upper: upper}\n\tif w.lower, err = s.State(ctx, s.Min); err != nil && !NotFound(err) {\n\t\treturn nil, err\n\t}\n\n\tif w.lower == nil {\n\t\t// now we need to find a lower bound state manually.\n\t\t// This can have edge cases if there are missing sequence numbers.\n\t\tw.upper, w.lower, err = findBound(ctx, s, upper, timestamp)\n\t\tif err != nil {\n\t\t\treturn nil, err\n\t\t}\n\t}\n\n\tif !timestamp.After(w.lower.Timestamp) {\n\t\t// the lowest state is already at or after the timestamp.\n\t\treturn w.lower, nil\n\t}\n\n\treturn w.search(ctx, s, timestamp)\n}\n\nfunc findBound(ctx context.Context, s *stater, upper *State, timestamp time.Time) (*State, *State, error) {\n\tvar (\n\t\tlowerID uint64 = 1\n\t\tlower   *State\n\t\terr     error\n\t)\n\n\t// we need to find the lower bound\n\tfor lower == nil {\n\t\tlower, err = s.State(ctx, lowerID)\n\n\t\tif err != nil && !NotFound(err) {\n\t\t\treturn nil, nil, err\n\t\t}\n\n\t\tif lower != nil && !timestamp.After(lower.Timestamp) {\n\t\t\tif lower.SeqNum+1 >= upper.SeqNum {\n\t\t\t\treturn lower, upper, nil // edge case if there are only two sequence numbers\n\t\t\t}\n\n\t\t\t// in our search for lower we found a new upper bound\n\t\t\tupper = lower\n\t\t\tlower = nil\n\t\t\tlowerID = 1\n\t\t}\n\n\t\tif lower != nil {\n\t\t\tbreak\n\t\t}\n\n\t\t// no lower yet, so try a higher id (binary search wise)\n\t\tnewID := (lowerID + upper.SeqNum) / 2\n\t\tif newID <= lowerID {\n\t\t\t// nothing suitable found, so upper is probably the best we can do\n\t\t\treturn upper, upper, nil\n\t\t}\n\t\tlowerID = newID\n\t}\n\n\treturn lower, upper, nil\n}\n\n// window is the part of the sequence that is still searched: the state looked for\n// is written after lower and is upper at the latest.\ntype window struct {\n\tlower, upper *State\n}\n\n// search does the binary search through the window.\nfunc (w *window) search(ctx context.Context, s *stater, timestamp time.Time) (*State, error) {\n\t// we do a binary search through the range to find the sequence number\n\tfor w.lower.SeqNum+1 < w.upper.SeqNum {\n\t\t// could do better here\n\t\tsplitID := (w.lower.SeqNum + w.upper.SeqNum) / 2\n\n\t\tsplit, err := s.State(ctx, splitID)\n\t\tif err != nil && !NotFound(err) {\n\t\t\treturn nil, err\n\t\t}\n\n\t\tif split == nil {\n\t\t\t// file missing, search the next towards w.lower\n\t\t\tsID := splitID - 1\n\n\t\t\tfor split == nil && w.lower.SeqNum < sID {\n\t\t\t\tsplit, err = s.State(ctx, sID)\n\t\t\t\tif err != nil && !NotFound(err) {\n\t\t\t\t\treturn nil, err\n\t\t\t\t}\n\n\t\t\t\tsID--\n\t\t\t}\n\t\t}\n\n\t\tif split == nil {\n\t\t\t// still missing? search the next towards w.upper\n\t\t\tsID := splitID + 1\n\n\t\t\tfor split == nil && sID < w.upper.SeqNum {\n\t\t\t\tsplit, err = s.State(ctx, sID)\n\t\t\t\tif err != nil && !NotFound(err) {\n\t\t\t\t\treturn nil, err\n\t\t\t\t}\n\n\t\t\t\tsID++\n\t\t\t}\n\t\t}\n\n\t\tif split == nil {\n\t\t\t// nothing between w.lower and w.upper, so w.upper is\n\t\t\t// the first state at or after the timestamp.\n\t\t\treturn w.upper, nil\n\t\t}\n\n\t\t// set the new boundary\n\t\tif timestamp.After(split.Timestamp) {\n\t\t\tw.lower = split\n\t\t} else {\n\t\t\tw.upper = split\n\t\t}\n\t}\n\n\t// timestamp is now between w.lower and w.upper, we want to return the w.upper.\n\treturn w.upper, nil\n}\n", ExpectRule: "M6", ExpectConstruct: "order@findBound"},
+	{Name: "m6-window-equal-becomes-lower", File: "replication/search.go", Find: "\tlower, err := s.State(ctx, s.Min)\n\tif err != nil && !NotFound(err) {\n\t\treturn nil, err\n\t}\n\n\tif lower == nil {\n\t\t// now we need to find a lower bound state manually.\n\t\t// This can have edge cases if there are missing sequence numbers.\n\t\tvar err error\n\t\tlower, upper, err = findBound(ctx, s, upper, timestamp)\n\t\tif err != nil {\n\t\t\treturn nil, err\n\t\t}\n\t}\n\n\tif !timestamp.After(lower.Timestamp) {\n\t\t// the lowest state is already at or after the timestamp.\n\t\treturn lower, nil\n\t}\n\n\treturn findInRange(ctx, s, lower, upper, timestamp)\n}\n\nfunc findBound(ctx context.Context, s *stater, upper *State, timestamp time.Time) (*State, *State, error) {\n\tvar (\n\t\tlowerID uint64 = 1\n\t\tlower   *State\n\t\terr     error\n\t)\n\n\t// we need to find the lower bound\n\tfor lower == nil {\n\t\tlower, err = s.State(ctx, lowerID)\n\n\t\tif err != nil && !NotFound(err) {\n\t\t\treturn nil, nil, err\n\t\t}\n\n\t\tif lower != nil && !timestamp.After(lower.Timestamp) {\n\t\t\tif lower.SeqNum+1 >= upper.SeqNum {\n\t\t\t\treturn lower, upper, nil // edge case if there are only two sequence numbers\n\t\t\t}\n\n\t\t\t// in our search for lower we found a new upper bound\n\t\t\tupper = lower\n\t\t\tlower = nil\n\t\t\tlowerID = 1\n\t\t}\n\n\t\tif lower != nil {\n\t\t\tbreak\n\t\t}\n\n\t\t// no lower yet, so try a higher id (binary search wise)\n\t\tnewID := (lowerID + upper.SeqNum) / 2\n\t\tif newID <= lowerID {\n\t\t\t// nothing suitable found, so upper is probably the best we can do\n\t\t\treturn upper, upper, nil\n\t\t}\n\t\tlowerID = newID\n\t}\n\n\treturn lower, upper, nil\n}\n\nfunc findInRange(ctx context.Context, s *stater, lower, upper *State, timestamp time.Time) (*State, error) {\n\t// we do a binary search through the range to find the sequence number\n\tfor lower.SeqNum+1 < upper.SeqNum {\n\t\t// could do better here\n\t\tsplitID := (lower.SeqNum + upper.SeqNum) / 2\n\n\t\tsplit, err := s.State(ctx, splitID)\n\t\tif err != nil && !NotFound(err) {\n\t\t\treturn nil, err\n\t\t}\n\n\t\tif split == nil {\n\t\t\t// file missing, search the next towards lower\n\t\t\tsID := splitID - 1\n\n\t\t\tfor split == nil && lower.SeqNum < sID {\n\t\t\t\tsplit, err = s.State(ctx, sID)\n\t\t\t\tif err != nil && !NotFound(err) {\n\t\t\t\t\treturn nil, err\n\t\t\t\t}\n\n\t\t\t\tsID--\n\t\t\t}\n\t\t}\n\n\t\tif split == nil {\n\t\t\t// still missing? search the next towards upper\n\t\t\tsID := splitID + 1\n\n\t\t\tfor split == nil && sID < upper.SeqNum {\n\t\t\t\tsplit, err = s.State(ctx, sID)\n\t\t\t\tif err != nil && !NotFound(err) {\n\t\t\t\t\treturn nil, err\n\t\t\t\t}\n\n\t\t\t\tsID++\n\t\t\t}\n\t\t}\n\n\t\tif split == nil {\n\t\t\t// nothing between lower and upper, so upper is\n\t\t\t// the first state at or after the timestamp.\n\t\t\treturn upper, nil\n\t\t}\n\n\t\t// set the new boundary\n\t\tif timestamp.After(split.Timestamp) {\n\t\t\tlower = split\n\t\t} else {\n\t\t\tupper = split\n\t\t}\n\t}\n\n\t// timestamp is now between lower and upper, we want to return the upper.\n\treturn upper, nil\n}\n", Replace: "\tw := window{upper: upper}\n\tif w.lower, err = s.State(ctx, s.Min); err != nil && !NotFound(err) {\n\t\treturn nil, err\n\t}\n\n\tif w.lower == nil {\n\t\t// now we need to find a lower bound state manually.\n\t\t// This can have edge cases if there are missing sequence numbers.\n\t\tw.lower, w.upper, err = findBound(ctx, s, upper, timestamp)\n\t\tif err != nil {\n\t\t\treturn nil, err\n\t\t}\n\t}\n\n\tif !timestamp.After(w.lower.Timestamp) {\n\t\t// the lowest state is already at or after the timestamp.\n\t\treturn w.lower, nil\n\t}\n\n\treturn w.search(ctx, s, timestamp)\n}\n\nfunc findBound(ctx context.Context, s *stater, upper *State, timestamp time.Time) (*State, *State, error) {\n\tvar (\n\t\tlowerID uint64 = 1\n\t\tlower   *State\n\t\terr     error\n\t)\n\n\t// we need to find the lower bound\n\tfor lower == nil {\n\t\tlower, err = s.State(ctx, lowerID)\n\n\t\tif err != nil && !NotFound(err) {\n\t\t\treturn nil, nil, err\n\t\t}\n\n\t\tif lower != nil && !timestamp.After(lower.Timestamp) {\n\t\t\tif lower.SeqNum+1 >= upper.SeqNum {\n\t\t\t\treturn lower, upper, nil // edge case if there are only two sequence numbers\n\t\t\t}\n\n\t\t\t// in our search for lower we found a new upper bound\n\t\t\tupper = lower\n\t\t\tlower = nil\n\t\t\tlowerID = 1\n\t\t}\n\n\t\tif lower != nil {\n\t\t\tbreak\n\t\t}\n\n\t\t// no lower yet, so try a higher id (binary search wise)\n\t\tnewID := (lowerID + upper.SeqNum) / 2\n\t\tif newID <= lowerID {\n\t\t\t// nothing suitable found, so upper is probably the best we can do\n\t\t\treturn upper, upper, nil\n\t\t}\n\t\tlowerID = newID\n\t}\n\n\treturn lower, upper, nil\n}\n\n// window is the part of the sequence that is still searched: the state looked for\n// is written after lower and is upper at the latest.\ntype window struct {\n\tlower, upper *State\n}\n\n// search does the binary search through the window.\nfunc (w *window) search(ctx context.Context, s *stater, timestamp time.Time) (*State, error) {\n\t// we do a binary search through the range to find the sequence number\n\tfor w.lower.SeqNum+1 < w.upper.SeqNum {\n\t\t// could do better here\n\t\tsplitID := (w.lower.SeqNum + w.upper.SeqNum) / 2\n\n\t\tsplit, err := s.State(ctx, splitID)\n\t\tif err != nil && !NotFound(err) {\n\t\t\treturn nil, err\n\t\t}\n\n\t\tif split == nil {\n\t\t\t// file missing, search the next towards w.lower\n\t\t\tsID := splitID - 1\n\n\t\t\tfor split == nil && w.lower.SeqNum < sID {\n\t\t\t\tsplit, err = s.State(ctx, sID)\n\t\t\t\tif err != nil && !NotFound(err) {\n\t\t\t\t\treturn nil, err\n\t\t\t\t}\n\n\t\t\t\tsID--\n\t\t\t}\n\t\t}\n\n\t\tif split == nil {\n\t\t\t// still missing? search the next towards w.upper\n\t\t\tsID := splitID + 1\n\n\t\t\tfor split == nil && sID < w.upper.SeqNum {\n\t\t\t\tsplit, err = s.State(ctx, sID)\n\t\t\t\tif err != nil && !NotFound(err) {\n\t\t\t\t\treturn nil, err\n\t\t\t\t}\n\n\t\t\t\tsID++\n\t\t\t}\n\t\t}\n\n\t\tif split == nil {\n\t\t\t// nothing between w.lower and w.upper, so w.upper is\n\t\t\t// the first state at or after the timestamp.\n\t\t\treturn w.upper, nil\n\t\t}\n\n\t\t// set the new boundary\n\t\tif !split.Timestamp.After(timestamp) {\n\t\t\tw.lower = split\n\t\t} else {\n\t\t\tw.upper = split\n\t\t}\n\t}\n\n\t// timestamp is now between w.lower and w.upper, we want to return the w.upper.\n\treturn w.upper, nil\n}\n", ExpectRule: "M6", ExpectConstruct: "order@(*window).search lower"},
 	// M3
 	{Name: "m3-format-two-digit-leaf", File: "replication/changesets.go", Find: "%03d/%03d/%03d", Replace: "%03d/%03d/%02d", ExpectRule: "M3", ExpectConstruct: "url@(*Datasource).ChangesetState [state]"},
 	{Name: "m3-level2-modulus", File: "replication/interval.go", Find: "(n%1000000)/1000", Replace: "(n%100000)/1000", ExpectRule: "M3", ExpectConstruct: "url@(*Datasource).MinuteState [state]"},
@@ -171,6 +179,7 @@ var c19Mutants = []core.Mutant{
 	{Name: "m3-notfound-nil-true", File: "replication/datasource.go", Find: "if err == nil {\n\t\treturn false", Replace: "if err == nil {\n\t\treturn true", ExpectRule: "M3", ExpectConstruct: "notfound decision"},
 	{Name: "m3-time-first-layout-wins-regardless", File: "replication/datasource.go", Find: "\t\tif err == nil {\n\t\t\treturn t, nil\n\t\t}\n", Replace: "\t\treturn t, err\n", ExpectRule: "M3", ExpectConstruct: "time "},
 	{Name: "m3-dir-swapped-in-url", File: "replication/interval.go", Find: "\t\tds.baseURL(),\n\t\tsn.Dir(),\n", Replace: "\t\tsn.Dir(),\n\t\tds.baseURL(),\n", ExpectRule: "M3", ExpectConstruct: "url@(*Datasource).Hour [data]"},
+	{Name: "m3-dir-lookup-table-wrong-entry", File: "replication/interval.go", Find: "func (n HourSeqNum) Dir() string {\n\treturn \"hour\"\n}\n", Replace: "// replicationDirs maps the interval names to the directories on the planet server.\nvar replicationDirs = map[string]string{\"hourly\": \"hours\", \"daily\": \"day\"}\n\nfunc (n HourSeqNum) Dir() string {\n\tdir, ok := replicationDirs[\"hourly\"]\n\tif !ok {\n\t\treturn \"\"\n\t}\n\treturn dir\n}\n", ExpectRule: "M3", ExpectConstruct: "dir@HourSeqNum"},
 	// M4
 	{Name: "m4-current-not-incremented", File: "replication/changesets.go", Find: "s.SeqNum++", Replace: "s.SeqNum += 0", ExpectRule: "M4", ExpectConstruct: "CurrentChangesetState [current]"},
 	{Name: "m4-numbered-keeps-file-value", File: "replication/changesets.go", Find: "s.SeqNum = uint64(n)", Replace: "s.SeqNum = s.SeqNum + 0", ExpectRule: "M4", ExpectConstruct: "ChangesetState [numbered]"},
@@ -220,6 +229,17 @@ type c19Table struct {
 	} `json:"timestamps"`
 	OKStatus       int64 `json:"ok_status"`
 	NotFoundStatus int64 `json:"not_found_status"`
+	// FirstSequence is the least sequence number a replication directory can hold; when the table does not say,
+	// 1 (the numbering of every planet replication directory starts at 1).
+	FirstSequence *int64 `json:"first_sequence"`
+}
+
+// firstSeq is the least sequence number a replication directory admits.
+func (t *c19Table) firstSeq() (int64, string) {
+	if t.FirstSequence != nil {
+		return *t.FirstSequence, "tables/replication.json first_sequence"
+	}
+	return 1, "planet numbering starts at 1; tables/replication.json has no first_sequence entry"
 }
 
 func c19LoadTable(r *core.R) *c19Table {
